@@ -515,7 +515,8 @@ func c02R5(c *Ctx) {
 			if tv := info.Types[as.Rhs[0]]; tv.Value == nil || tv.Value.ExactString() != `""` {
 				return false
 			}
-			return strings.HasPrefix(exprString(as.Lhs[0]), base+".ipv4Ref.IP.")
+			// the address record may be named by a local (`ip := <pod>.ipv4Ref.IP`)
+			return strings.HasPrefix(derefString(fn, as.Lhs[0]), base+".ipv4Ref.IP.")
 		}
 		// within the arm: from the arm's condition to the drop
 		var arm *ast.IfStmt
@@ -542,7 +543,7 @@ func c02R5(c *Ctx) {
 		if tv := info.Types[s.RHS]; tv.Value == nil || tv.Value.ExactString() != `""` {
 			continue
 		}
-		lhs := exprString(s.LHS)
+		lhs := derefString(fn, s.LHS)
 		for _, fam := range []string{"4", "6"} {
 			suf := ".ipv" + fam + "Ref.IP.PodID"
 			if strings.HasSuffix(lhs, suf) {
